@@ -4,7 +4,7 @@ import json
 import os
 import re
 from .common import Finding
-from . import guards, grammar as G
+from . import guards, decide, grammar as G
 
 SPEC = os.path.join(os.path.dirname(os.path.dirname(os.path.abspath(__file__))), "spec", "rule_formulas.json")
 
@@ -18,6 +18,20 @@ def current(F, tms):
             d.setdefault(s["code"] or "?", []).append(s)
         out[tm.name] = d
     return out
+
+
+_V = []
+
+
+def _vocab(spec):
+    if not _V:
+        texts = []
+        for t, codes in spec.items():
+            for code, lst in codes.items():
+                for x in lst:
+                    texts.extend(guards.atoms_of(guards.from_json(x["f"])))
+        _V.append(decide.vocabulary(texts))
+    return _V[0]
 
 
 def v4(rep, F, tms):
@@ -60,6 +74,25 @@ def v4(rep, F, tms):
                 else:
                     used.add(hit)
             missing = [i for i in range(len(sp)) if i not in used]
+            # a current formula that cannot be *proved* different from a still unmatched reference formula (its
+            # differing atoms are opaque / unresolved) is undecided: note, and that reference counts as matched
+            vocab = _vocab(spec)
+            still = []
+            for s, undec in unmatched_cur:
+                und = None
+                for i in missing:
+                    verdict, info = decide.definite_difference(s["f"], sp[i], vocab)
+                    if verdict in ("undecided", "same"):
+                        und = i
+                        break
+                if und is not None:
+                    missing.remove(und)
+                    r["undecided"] = r.get("undecided", 0) + 1
+                    rep.notes.append("V4: %s %s in %s: condition differs from the reference only in terms the "
+                                     "extractor cannot resolve: undecided, not reported" % (tname, code, s["fn"]))
+                else:
+                    still.append((s, undec))
+            unmatched_cur = still
             for s, undec in unmatched_cur:
                 # nearest reference formula for the witness
                 wtxt = ""
